@@ -1,5 +1,5 @@
 (* C05: the engine model (Search.v, fixed variant by default) replays every history of Analyze calls made on one engine.
-   input:  <id> ; <cfg> ; A|ALL ; <enc p>@<k> ; ...      cfg = size depth evk nosort nonull noreduce multicut tablelen *)
+   input:  <id> ; <cfg> ; A|ALL ; <enc p>@<k> ; ...   (ALL: one AnalyzeAll call on a fresh engine, cancelled inside the k-th leaf evaluation of the whole call, 0 = never)      cfg = size depth evk nosort nonull noreduce multicut tablelen *)
 open Common
 let b s = (s = "1")
 let parse_cfg s =
@@ -32,9 +32,11 @@ let run args =
       (l1, Some l2, None)
     | [_id; cfg; "ALL"; call] ->
       let (cfg, tlen) = parse_cfg cfg in
-      let (p, _) = parse_call call in
-      let (_, (((lines, v), d), _)) = SearchInst.run_analyze_all cfg (Search.new_state (nat_of_int tlen)) p in
+      let (p, k) = parse_call call in
+      let all = if pinned then SearchAllInst.run_analyze_all_pinned else SearchAllInst.run_analyze_all_cancel in
+      let (_, (((lines, v), d), c)) = all cfg k (Search.new_state (nat_of_int tlen)) p in
       let firsts = L.sort compare (L.filter_map (function m :: _ -> Some (enc_move m) | [] -> None) lines) in
       let firsts = if firsts = [] then "-" else S.concat "," firsts in
-      (Printf.sprintf "%s %s %s" firsts (string_of_z v) (string_of_z d), Some (S.concat " ; " (L.map enc_moves lines)), None)
+      let l2 = if lines = [] then "-" else S.concat " ; " (L.map enc_moves lines) in
+      (Printf.sprintf "%s %s %s %d" firsts (string_of_z v) (string_of_z d) (if c then 1 else 0), Some l2, None)
     | _ -> failwith "c05 input")
